@@ -58,6 +58,22 @@ pub fn scenarios(srcs: &SrcCache) -> Vec<Scenario> {
         BOpts::new(100, 8, 6),
         srcs,
     ));
+    // Duplicate content inside one run, so that a failed block store is followed by a store of
+    // the same content.
+    v.push(build_scenario(
+        "S11-empty+duplicate-contents",
+        &[],
+        common::tree_dups(),
+        BOpts::new(100, 16, 6),
+        srcs,
+    ));
+    v.push(build_scenario(
+        "S12-empty+duplicate-contents-small-blocks",
+        &[],
+        common::tree_dups(),
+        BOpts::new(3, 8, 6),
+        srcs,
+    ));
     v.push(build_scenario(
         "S10-b0(six-small)+six-small-changed",
         &[common::Step::Backup(common::tree_small_files(), BOpts::new(100, 8, 6))],
